@@ -157,7 +157,10 @@ func runC15(w *W) {
 	// (1) look-ahead shapes: the error reaches the lexer through Peek (peekChar, peekCharN, isIdentifierAfterDot, tryReadDollarTag)
 	for i, s := range []string{"", "SELECT 1", "SELECT 1;", "SELECT $tag$ body $tag$", "SELECT $tag$ body", "SELECT $$x$$", "SELECT t.123_x", "SELECT .5", "SELECT 1.5e3", "SELECT a.1abc",
 		"SELECT 'é€😀'", "SELECT a -- c", "SELECT a /* c */", "SELECT 1 -- c\n; SELECT 2", "SELECT a<=>b, a::b, a->b", "SELECT {p:UInt8}", "é", "$", ".", "-", "/", "SELECT 1; SELECT 2; SELECT 3",
-		"SELECT x'ff', b'01'", "SELECT `a`.\"b\"", "SELECT 'unterminated", "SELECT 1e", "SELECT 0x", "  \t\n", ";;;", "SELECT 1 FORMAT JSON", "INSERT INTO t VALUES (1, 'a')", "\ufeffSELECT 1"} {
+		"SELECT x'ff', b'01'", "SELECT `a`.\"b\"", "SELECT 'unterminated", "SELECT 1e", "SELECT 0x", "  \t\n", ";;;", "SELECT 1 FORMAT JSON", "INSERT INTO t VALUES (1, 'a')", "\ufeffSELECT 1",
+		// failures that are reached only while the parser skips semicolons, whitespace and comments between statements
+		"SELECT 1;;;; SELECT 2", ";;;; SELECT 1", "SELECT 1;;; -- done\nSELECT 2", "SELECT 1 ; ; ; ; ; /* c */ ; ; SELECT 2 ; ; ;", ";;;;;;;;", "SELECT 1;\n\n\n;\n;\n-- x\n;SELECT 2", "SELECT 1 PARALLEL WITH SELECT 2;;; ;SELECT 3",
+		"SELECT 1 -- a comment that is quite long ........................................\n; SELECT 2", "SELECT 1 # hash comment\n;;;;SELECT 2", "SELECT 1 /* block\ncomment */ ;;;; /* another */ SELECT 2"} {
 		run(s, fmt.Sprintf("shape:%d", i))
 	}
 	// (2) corpus statements <= 512 bytes
